@@ -26,3 +26,38 @@ Qed.
 Example archive_add_propagates_exception : forall (T : Type) (s m : T),
   Core.Archive_add T (fun _ _ => None) [m] s = None.
 Proof. reflexivity. Qed.
+
+(* ---- C03 stated about the GENERATED Archive.add: offering l one by one to an empty archive through the
+   definition produced from the source text leaves exactly the non-dominated subset of l (order and
+   multiplicity included), for every comparator with the laws of a strict dominance (Props/C03.v). ---- *)
+From PV Require Import Props.C03.
+
+Definition gen_offer {T} (cmp : T -> T -> Z) (acc : option (list T)) (s : T) : option (list T) :=
+  match acc with
+  | Some a => match Core.Archive_add T (fun x y => Some (cmp x y)) a s with
+              | Some (a', _) => Some a'
+              | None => None
+              end
+  | None => None
+  end.
+
+Lemma gen_offer_fold {T} (cmp : T -> T -> Z) : forall l a,
+  fold_left (gen_offer cmp) l (Some a) = Some (fold_left (fun a s => fst (add T cmp a s)) l a).
+Proof.
+  induction l as [|s l IH]; intro a; cbn [fold_left]; [reflexivity|].
+  unfold gen_offer at 2. rewrite tie_archive_add. destruct (add T cmp a s) as [a' b] eqn:E. cbn [fst].
+  apply IH.
+Qed.
+
+Theorem tie_c03_generated_archive_char : forall (T : Type) (cmp : T -> T -> Z) (P : T -> Prop),
+  (forall x y, cmp x y = -1 \/ cmp x y = 0 \/ cmp x y = 1) ->
+  (forall x y, P x -> P y -> cmp y x = - cmp x y) ->
+  (forall x y z, P x -> P y -> P z -> dom T cmp x y = true -> dom T cmp y z = true -> dom T cmp x z = true) ->
+  (forall x, P x -> dom T cmp x x = false) ->
+  forall l, Forall P l -> fold_left (gen_offer cmp) l (Some []) = Some (filter (nd T cmp l) l).
+Proof.
+  intros T cmp P H1 H2 H3 H4 l Hl. rewrite gen_offer_fold. f_equal.
+  exact (c03_archive_char T cmp P H1 H2 H3 H4 l Hl).
+Qed.
+
+Print Assumptions tie_c03_generated_archive_char.
